@@ -105,7 +105,14 @@ Fixpoint eval (en : env) (e : expr) {struct e} : option val :=
       | Some x, Some y =>
           match to_q x, to_q y with
           | Some p, Some q => Some (VNum (match o with BAdd => p + q | BSub => p - q | BMul => p * q | BDiv => p / q end)%Q)
-          | _, _ => None
+          | _, _ =>
+              (* elementwise array * scalar (a NEW array: same values as the in-place `*=`) *)
+              match o, x, y with
+              | BMul, VErr n f k, _ => option_map (fun q => VErr n (Qred (f * q)) k) (to_q y)
+              | BMul, _, VErr n f k => option_map (fun q => VErr n (Qred (q * f)) k) (to_q x)
+              | BDiv, VErr n f k, _ => option_map (fun q => VErr n (Qred (f / q)) k) (to_q y)
+              | _, _, _ => None
+              end
           end
       | _, _ => None
       end
